@@ -181,13 +181,18 @@ CLAIMED = {
         text="Proved in Lean: the exporter's depth-first module traversal lists every module exactly once and after everything it "
         "instantiates, for any module DAG, sharing and list of tops (export_order); connection targets produced by resolver + "
         "exporter (fragment F1) carry exactly the connection's width and stay inside their signals (target_width, C03 "
-        "exported_bits_in_range). The full closure predicate WFpkg (unique names, ports name declared signals, references resolve to "
+        "exported_bits_in_range); for whole modules (export_module_wf, over the model of export_module / export_port / export_instance): an "
+        "elaborated module in the state EWF — one object per name, no zero-width signal, directed ports, every instance of a defined target with "
+        "each port connected exactly once to a connectable over the module's own signals that exports and has the port's width — is exported "
+        "without error and the result has none of the module-level defects the property lists, in whatever package it ends up. EWF is evaluated on "
+        "what elaboration really leaves in every module of generated designs, and the model's export is compared with the module the exporter "
+        "wrote. The full closure predicate WFpkg (unique names, ports name declared signals, references resolve to "
         "earlier modules / declared external modules / primitives of the regenerated table, each target port connected exactly once, "
         "targets declared, in range and of the port's width) is a Lean definition *executed* on every package the real code returns: "
         "generated designs, the repository's examples, Series/MosStack/Wrapper over parameter ranges, a PDK-compiled design; plus "
         "acceptance by from_proto and the spice and spectre netlisters.",
-        note="That elaborate∘export establishes WFpkg for every design is proved for the traversal order and the connection targets only; "
-        "the remaining clauses rest on the executed predicate. Primitive port table regenerated from /repo each run.",
+        note="That elaboration establishes EWF is evaluated on every explored design, not proved (the checking passes are not modelled one by "
+        "one); module-name uniqueness and external-module declarations rest on the executed predicate. Primitive port table regenerated from /repo each run.",
         ref="DESIGN.md §6 C06",
         technique="Lean 4 proof (traversal invariant by induction; width/range from C03/C01 lemmas) + executed Lean predicate on real packages",
     ),
